@@ -52,6 +52,8 @@ class Sys:
             if sys_.fail_next:
                 sys_.fail_next = False
                 raise Boom()
+            if not a and not kw:
+                return None          # f() legitimately returns None: must be cached like any value
             return ("result", len(sys_.invocations))
 
         if is_async:
@@ -158,10 +160,10 @@ INVARIANT KeyFacts
 TIERS = {
     "quick": [
         (2, False, [1, 2, 3, 14], "func", 5), (2, True, [1, 2, 3, 5, 6], "func", 4),
-        (1, False, [1, 4, 9, 13], "func", 5), (None, False, [5, 6, 7, 8, 12], "func", 4),
+        (1, False, [1, 4, 9, 13], "func", 5), (None, False, [5, 6, 7, 8, 12, 13], "func", 4),
         (0, False, [1, 2], "func", 4), (-1, True, [1, 14], "func", 4),
         (3, False, [10, 11, 12, 16, 5], "func", 4), (2, False, [1, 2, 14], "method", 4),
-        (128, False, [1, 2, 3, 14, 15], "bare", 4), (None, False, [1, 2, 3, 4], "cache", 4),
+        (128, False, [1, 2, 3, 14, 15], "bare", 4), (None, False, [1, 2, 3, 13], "cache", 4),
         (2, False, [1, 14], "classmethod", 4), (2, True, [1, 2], "staticmethod", 4),
     ],
     "thorough": [
@@ -243,7 +245,7 @@ def replay_path(args):
             if op == "hit":
                 r2 = ("ok", vals.get(mkey))
             elif op == "miss":
-                r2 = ("ok", ("result", len(real.invocations)))
+                r2 = ("ok", None if p == 13 and form in ("func", "bare", "cache", "staticmethod") else ("result", len(real.invocations)))
                 if mkey is not None:
                     vals[mkey] = r2[1]
             else:
